@@ -203,3 +203,63 @@ func checkGenesisRejections(w *World, r *Report, rule string) {
 		}
 	}
 }
+
+// iterLoops: loops driven by a store iterator (for ; it.Valid(); it.Next()).
+func iterLoops(fn *ssa.Function) []rangeLoop {
+	var out []rangeLoop
+	for _, b := range fn.Blocks {
+		i := blockIf(b)
+		if i == nil {
+			continue
+		}
+		base, neg := stripNot(i.Cond)
+		c, ok := base.(*ssa.Call)
+		if !ok || !c.Common().IsInvoke() || c.Common().Method.Name() != "Valid" {
+			continue
+		}
+		body := b.Succs[0]
+		if neg {
+			body = b.Succs[1]
+		}
+		// a loop: the block is reached again from its body
+		if len(loopBlocks(b)) < 2 {
+			continue
+		}
+		out = append(out, rangeLoop{Header: b, Body: body, Over: c.Common().Value})
+	}
+	return out
+}
+
+// checkGetAll (closed world): a keeper function that lists a store prefix with an iterator hands back every record:
+// each iteration decodes the value and appends it (or passes it to the callback), no iteration is skipped and the loop
+// is not left early; the prefix iterated is the full prefix (empty start).
+func checkGetAll(w *World, r *Report, rule string, roots []*ssa.Function) {
+	cg := w.CG()
+	var fns []*ssa.Function
+	for fn := range cg.Reach(roots) {
+		if w.isProdFunc(fn) && strings.Contains(funcName(fn), "/keeper.") {
+			fns = append(fns, fn)
+		}
+	}
+	sort.Slice(fns, func(i, j int) bool { return fns[i].String() < fns[j].String() })
+	for _, fn := range fns {
+		for _, l := range iterLoops(fn) {
+			collects := func(b *ssa.BasicBlock) bool {
+				for _, in := range b.Instrs {
+					if c, ok := in.(*ssa.Call); ok {
+						if bi, ok := c.Common().Value.(*ssa.Builtin); ok && bi.Name() == "append" {
+							return true
+						}
+						if _, isParam := c.Common().Value.(*ssa.Parameter); isParam {
+							return true // callback
+						}
+					}
+				}
+				return false
+			}
+			every := loopBodyMustPass(l, collects)
+			ex := loopEarlyExit(l)
+			r.Check(every && ex == nil, rule, funcName(fn)+": the listing returns every record of the prefix", w.Pos(fn.Pos()), "every iteration appends the decoded record; no early exit", "some records of the prefix are left out of the listing (an iteration that does not append, or an early exit): export, summaries and block routines see an incomplete state")
+		}
+	}
+}
